@@ -335,7 +335,7 @@ def machine(acc: Acc, tier, shard, nshards):
                         fh.write('LAYER\n  NAME "initial_%s"\n  TYPE POINT\nEND\n' % f)
             if rewrite:
                 with open(os.path.join(self.inc_dir, folder, "layer.map"), "w") as fh:
-                    fh.write('LAYER\n  NAME "%s"\n  TYPE %s\nEND\n' % (name, typ))
+                    fh.write('LAYER\n  NAME "%s"\n  TYPE %s\n  CLASS\n    EXPRESSION ([a] > 1 AND [b] < 2)\n  END\nEND\n' % (name, typ))
             path = os.path.join(self.inc_dir, folder, "main.map")
             self.hist.append(["parse_with_includes", folder, rewrite, name, typ, how])
             self.special = True
@@ -417,8 +417,16 @@ def thread_round(acc, shard, r, tier, nthreads=16):
     texts = texts[: nthreads // 2 + 1]   # every own text is used by two threads, the first text by all of them
     shared = texts[0]
 
-    def work(text):
+    base = tempfile.mkdtemp(prefix="mfv_c12t_")
+
+    def work(text, slot="seq"):
         d = mappyfile.loads(text, expand_includes=False)
+        # save is a public function too: every caller writes a file of the same name in a directory of its own
+        os.makedirs(os.path.join(base, f"t{slot}"), exist_ok=True)
+        fn = os.path.join(base, f"t{slot}", "mapfile.map")
+        mappyfile.save(d, fn)
+        with open(fn, encoding="utf-8", newline="") as fh:
+            saved = fh.read()
         # the same text with bookkeeping on: comment collection and position data are per-call state too
         dc = mappyfile.loads(text, expand_includes=False, include_comments=True, include_position=True)
         out = mappyfile.dumps(d) + "\n--\n" + mappyfile.dumps(dc)
@@ -426,7 +434,7 @@ def thread_round(acc, shard, r, tier, nthreads=16):
         lists = collect_lists(d)
         found = [mappyfile.findall(lst, "name", "x") for _, lst in lists]
         uniq = [mappyfile.findunique(lst, "status") if all(isinstance(o.get("status", ""), str) for o in lst) else None for _, lst in lists]
-        return ((refdict.snapshot(d), refdict.snapshot(dc)), out, [m["message"] + m["error"] for m in msgs], [len(f) for f in found], uniq)
+        return ((refdict.snapshot(d), refdict.snapshot(dc)), out, [m["message"] + m["error"] for m in msgs], [len(f) for f in found], uniq, saved)
 
     seq = {}
     for t in set(texts):
@@ -442,7 +450,7 @@ def thread_round(acc, shard, r, tier, nthreads=16):
                 mine_ = [texts[1 + i % (len(texts) - 1)], shared]
                 res = []
                 for t in mine_:
-                    res.append((t, work(t)))
+                    res.append((t, work(t, i)))
                 results[i] = res
                 done[i] = len(res)
             except Exception as e:
@@ -455,6 +463,7 @@ def thread_round(acc, shard, r, tier, nthreads=16):
             t.join(600)
     finally:
         sys.setswitchinterval(old)
+        shutil.rmtree(base, ignore_errors=True)
     case = {"round": r, "shard": shard, "texts": texts[:4]}
     acc.case(["threads", shard, r], sum(1 for v in done.values() if v >= 2) >= 8, sample={"threads": nthreads, "calls_per_thread": 2, "shared_text": shared[:200]})
     acc.cls("thread_rounds")
